@@ -308,6 +308,33 @@ def build(tier="quick", seed=0):
                 out = list(it.iterate(rdr))
                 got = [it.getattr_(it.getattr_(o, "_desc"), "name") for o in out]
                 return None if got == ["c03/dl", "c03/a"] else f"after a refused write the stream reads back as {got}, written: c03/dl, c03/a"
+            if kind in ("one holder with two same-name types, read back", "grouped record of two same-name types, read back"):
+                # ONE record needs two definitions of the same name at once: both are emitted in front of it and both are still there when the reader decodes it
+                if kind.startswith("one holder"):
+                    rec = it.call(N, [], {"r": a, "rs": [a2, a]})
+                    inner = lambda o: [it.getattr_(o, "r")] + list(it.iterate(it.getattr_(o, "rs")))
+                else:
+                    rec = it.call(GR, ["c03/grp", [a, a2]], {})
+                    inner = lambda o: list(it.getattr_(o, "records"))
+                fp, w, events = mk(None)
+                it.call(it.getattr_(w, "write"), [rec], {})
+                it.call(it.getattr_(w, "write"), [b], {})
+                bad = well_ordered(events(), [])
+                if bad:
+                    return bad
+                if fmt == "stream":
+                    rdr = it.call(st.g["RecordStreamReader"], [AbsFile(it, fp.content())], {})
+                else:
+                    rdr = it.call(jf.g["JsonfileReader"], [AbsFile(it, fp.content(), mode="r")], {})
+                try:
+                    out = list(it.iterate(rdr))
+                except PyRaise as e:
+                    return f"the stream cannot be read back: {e.cls_name}: {e}"
+                if len(out) != 2:
+                    return f"{len(out)} record(s) read back, 2 written"
+                got = [[tuple(f) for f in it.call(it.getattr_(it.getattr_(x_, "_desc"), "get_field_tuples"), [], {})] for x_ in inner(out[0])]
+                want = [[("varint", "n")], [("string", "s")], [("varint", "n")]] if kind.startswith("one holder") else [[("varint", "n")], [("string", "s")]]
+                return None if got == want else f"nested records read back with the field lists {got}, written with {want}"
             if kind == "a record type without fields":
                 # a record type may have no fields of its own (a marker record, a projection that excluded everything): its definition is emitted and found again like any other
                 E = it.call(RD, ["c03/empty", []], {})
@@ -370,10 +397,12 @@ def build(tier="quick", seed=0):
             raise KeyError(kind)
         return th
 
-    KINDS = ["new type", "known type", "same name registered", "nested, nothing known", "nested, holder known", "nested, inner known", "grouped, nothing known", "grouped, one member known", "grouped, same names registered", "grouped twice, other members", "same hash text, other name", "write refused while packing, caller carries on", "names that differ only in '/' and '_'", "declared with byte strings", "two writers", "frame", "a record type without fields", "grouped records of different shapes, flattened"]
+    KINDS = ["new type", "known type", "same name registered", "nested, nothing known", "nested, holder known", "nested, inner known", "grouped, nothing known", "grouped, one member known", "grouped, same names registered", "grouped twice, other members", "same hash text, other name", "write refused while packing, caller carries on", "names that differ only in '/' and '_'", "declared with byte strings", "two writers", "frame", "a record type without fields", "grouped records of different shapes, flattened", "one holder with two same-name types, read back", "grouped record of two same-name types, read back"]
     for fmt in ("stream", "json"):
         for kind in KINDS:
             if fmt == "json" and kind.startswith("grouped") and "flattened" not in kind or fmt == "stream" and "flattened" in kind:
+                continue
+            if fmt == "json" and kind.startswith("grouped record of two"):
                 continue  # the JSON packer flattens grouped records into one object of the flat type (C14)
             name = f"C03.write[{fmt}, {kind}]"
             pack.add(Obligation(name, lambda tier, name=name, kind=kind, fmt=fmt: prove_paths(name, scenario(kind, fmt), lambda p: (p.value is None, str(p.value)), lambda m_, p: {}, allow_raise=("UnicodeEncodeError", "error")),
